@@ -88,7 +88,8 @@ StepRules(st, self, types, cache) ==
   \cup (IF (isReqStim /\ m.kind \in {"New","Restart"} /\ ~valOK)
            => /\ ~reply.accepted
               /\ (m.kind = "New" /\ ~has => ~T.hasPost)
-              /\ (netPath /\ st.panic = "" => Len(TrOf(st.tr, "close")) >= 1)
+              \* (when the refusal itself cannot be sent the handler returns that error first; a channel that exists is failed and its cleanup closes the transport)
+              /\ (netPath /\ st.panic = "" /\ (\A i \in 1..Len(sends) : sends[i].ok) => Len(TrOf(st.tr, "close")) >= 1)
         THEN {} ELSE {"C04.refused"})
   \cup (IF (isReqStim /\ m.kind = "Restart" /\ has /\ ~term /\ consulted /\ ~script.err /\ ~script.accepted)
            => (post.status \in {"Failing","Failed"} /\ post.msg = "rejected")
